@@ -82,13 +82,14 @@ def make_config(case):
 
 def make_seq(case):
     return mr.make_sequence(n_atoms=case["n"], duration=10 * case["steps"], amp=case.get("amp", 3.1),
-                            det=case.get("det", 0.5), spacing=case.get("spacing", 7.0))
+                            det=case.get("det", 0.5), spacing=case.get("spacing", 7.0),
+                            order=case.get("order"), local=case.get("local"))
 
 
 def forced_perm(case):
     import torch
 
-    return None if case["perm"] is None else torch.tensor(case["perm"])
+    return torch.tensor(case["perm"]) if isinstance(case["perm"], list) else None  # "auto": the real optimiser
 
 
 def canon(results):
@@ -150,6 +151,7 @@ def run_case(case, abort_after=None, seed_on_resume=None):
         saves["n"] += 1
         saves["file"] = self.autosave_file
         saves["progress"].append([self._timestep_index, self._sweep_index, self._swipe_direction.name])
+        saves["perm_used"] = [int(x) for x in self.qubit_permutation]
         if abort_after is not None and saves["n"] == abort_after:
             saves["rng_state"] = rng.r.getstate()
             raise Abort()
@@ -166,6 +168,7 @@ def run_case(case, abort_after=None, seed_on_resume=None):
                 res = None
         out["saves"] = saves["n"]
         out["jumps"] = rng.jumps
+        out["perm_used"] = saves.get("perm_used")
         out["progress"] = saves["progress"]
         out["files_after_run"] = sorted(p.name for p in d.iterdir())
         if out["aborted"]:
@@ -188,7 +191,8 @@ def run_case(case, abort_after=None, seed_on_resume=None):
 
 # ---- cases -------------------------------------------------------------------------------------------
 def nonidentity_perms(n, rng):
-    ps = {2: [[1, 0]], 3: [[2, 0, 1], [1, 0, 2], [0, 2, 1]], 4: [[2, 0, 3, 1], [3, 2, 1, 0], [1, 0, 2, 3]]}[n]
+    ps = {2: [[1, 0]], 3: [[2, 0, 1], [1, 2, 0], [1, 0, 2], [0, 2, 1]],
+          4: [[2, 0, 3, 1], [3, 2, 1, 0], [1, 0, 2, 3], [1, 2, 0, 3]]}[n]
     return rng.choice(ps)
 
 
@@ -202,15 +206,36 @@ def gen_cases(ctx):
         {"n": 2, "steps": 2, "solver": "tdvp", "noisy": False, "perm": [1, 0]},
         {"n": 3, "steps": 1, "solver": "dmrg", "noisy": False, "perm": None},
         {"n": 3, "steps": 2, "solver": "tdvp", "noisy": True, "perm": None, "seed": 1, "rate": 80.0},
+        # per-atom (local) drives: omega/delta/phi columns differ, so the site <-> atom mapping matters
+        {"n": 3, "steps": 2, "solver": "tdvp", "noisy": False, "perm": [2, 0, 1],
+         "local": {"target": 0, "amp": 4.0, "det": -6.0, "phase": 0.7}},
+        {"n": 4, "steps": 2, "solver": "tdvp", "noisy": False, "perm": "auto", "order": [0, 2, 3, 1],
+         "local": {"target": 1, "amp": 5.0, "det": 3.0, "phase": 0.3}},
+        {"n": 3, "steps": 2, "solver": "dmrg", "noisy": False, "perm": [1, 2, 0],
+         "local": {"target": 2, "amp": 4.0, "det": -3.0, "phase": 0.0}},
+        {"n": 3, "steps": 2, "solver": "tdvp", "noisy": True, "perm": [1, 2, 0], "seed": 2, "rate": 80.0,
+         "local": {"target": 1, "amp": 4.0, "det": -6.0, "phase": 0.5}},
+        {"n": 3, "steps": 2, "solver": "tdvp", "noisy": False, "perm": None,
+         "local": {"target": 1, "amp": 4.0, "det": -6.0, "phase": 0.5}},
     ]
     cases += base
-    for _ in range(ctx.n(14, 150)):
+    for _ in range(ctx.n(10, 150)):
         n = rng.choice([2, 3, 4])
         solver = rng.choice(["tdvp", "tdvp", "dmrg"])
         noisy = solver == "tdvp" and rng.random() < 0.35
-        pk = rng.choice(["off", "identity", "nonid", "nonid"])
-        perm = None if pk == "off" else list(range(n)) if pk == "identity" else nonidentity_perms(n, rng)
-        cases.append({"n": n, "steps": rng.choice([1, 2, 3]), "solver": solver, "noisy": noisy, "perm": perm,
+        pk = rng.choice(["off", "identity", "nonid", "nonid", "auto"])
+        perm = None if pk == "off" else list(range(n)) if pk == "identity" else "auto" if pk == "auto" \
+            else nonidentity_perms(n, rng)
+        extra = {}
+        if pk == "auto":
+            order = list(range(n))
+            while n > 2 and order == sorted(order):
+                rng.shuffle(order)
+            extra["order"] = order if n > 2 else [1, 0]
+        if rng.random() < 0.6:
+            extra["local"] = {"target": rng.randrange(n), "amp": round(rng.uniform(1.0, 6.0), 3),
+                              "det": round(rng.uniform(-6.0, 6.0), 3), "phase": round(rng.uniform(0.0, 3.0), 3)}
+        cases.append(extra | {"n": n, "steps": rng.choice([1, 2, 3]), "solver": solver, "noisy": noisy, "perm": perm,
                       "amp": round(rng.uniform(1.0, 6.0), 3), "det": round(rng.uniform(-2.0, 2.0), 3),
                       "spacing": round(rng.uniform(6.0, 9.0), 3), "seed": rng.randrange(1000),
                       "rate": round(rng.uniform(20.0, 100.0), 2)})
@@ -237,6 +262,7 @@ def check_case(ctx, case, ks=None, stats=None):
     n_saves = ref["saves"]
     if stats is not None and case["noisy"]:
         stats["quantum_jumps_in_reference_runs"] = stats.get("quantum_jumps_in_reference_runs", 0) + ref["jumps"]
+    n_bad = 0
     for k in (ks if ks is not None else range(1, n_saves + 1)):
         r = run_case(case, abort_after=k)
         nontrivial = r["aborted"] and 0 < k < n_saves
@@ -244,12 +270,15 @@ def check_case(ctx, case, ks=None, stats=None):
                "progress": r["progress"][k - 1] if len(r["progress"]) >= k else None}
         ctx.count_case(rec, nontrivial)
         if stats is not None:
-            key = f"{case['solver']}{'/noisy' if case['noisy'] else ''}/perm={'off' if case['perm'] is None else 'id' if case['perm'] == sorted(case['perm']) else 'nonid'}"
+            pu = ref.get("perm_used") or []
+            key = (f"{case['solver']}{'/noisy' if case['noisy'] else ''}/"
+                   f"{'local' if case.get('local') else 'global'}/perm="
+                   f"{'off' if case['perm'] is None else ('auto-' if case['perm'] == 'auto' else '') + ('id' if pu == sorted(pu) else 'nonid')}")
             stats[key] = stats.get(key, 0) + 1
         if not r["aborted"]:
             continue
         why = None
-        key = "resume-differs"
+        key = "resumed-run-differs"
         if not r["resumed"]:
             why, key = f"MPSBackend.resume failed: {r.get('resume_error')}", "resume-fails"
         else:
@@ -264,8 +293,6 @@ def check_case(ctx, case, ks=None, stats=None):
                     why = "result tags/times differ after resume"
             elif d > tol:
                 why = f"values differ by {d:.3g} after resume"
-                if case["perm"] is not None and case["perm"] != sorted(case["perm"]):
-                    key = "resume-permute"
             if why is None and r["files_after_resume"]:
                 why, key = f"files left after the resumed run finished: {r['files_after_resume']}", "autosave-not-removed"
         if why:
@@ -275,6 +302,9 @@ def check_case(ctx, case, ks=None, stats=None):
                            "resumed": r["results"], "detail": why})
             if key == "resume-permute":
                 break  # same cause at every k
+            n_bad += 1
+            if n_bad >= 3:
+                break  # enough witnesses from this configuration
     return ok
 
 
